@@ -742,7 +742,40 @@ pub struct WriteTxn<'a> {
     memtable: MemTable,
 }
 
+/// The buffered writes of a transaction at one moment; see [`WriteTxn::savepoint`].
+pub struct Savepoint {
+    created_nodes: Vec<(ExternalId, LabelId, InternalNodeId)>,
+    pending_label_additions: Vec<(InternalNodeId, LabelId)>,
+    pending_label_removals: Vec<(InternalNodeId, LabelId)>,
+    created_external_ids: std::collections::HashSet<ExternalId>,
+    pending_vectors: Vec<(InternalNodeId, Vec<f32>)>,
+    memtable: MemTable,
+}
+
 impl<'a> WriteTxn<'a> {
+    /// Remembers the writes buffered so far, so that a statement that fails half way can be
+    /// undone with [`WriteTxn::rollback_to`] while the transaction stays usable.
+    pub fn savepoint(&self) -> Savepoint {
+        Savepoint {
+            created_nodes: self.created_nodes.clone(),
+            pending_label_additions: self.pending_label_additions.clone(),
+            pending_label_removals: self.pending_label_removals.clone(),
+            created_external_ids: self.created_external_ids.clone(),
+            pending_vectors: self.pending_vectors.clone(),
+            memtable: self.memtable.clone(),
+        }
+    }
+
+    /// Drops every write buffered since `savepoint` was taken.
+    pub fn rollback_to(&mut self, savepoint: Savepoint) {
+        self.created_nodes = savepoint.created_nodes;
+        self.pending_label_additions = savepoint.pending_label_additions;
+        self.pending_label_removals = savepoint.pending_label_removals;
+        self.created_external_ids = savepoint.created_external_ids;
+        self.pending_vectors = savepoint.pending_vectors;
+        self.memtable = savepoint.memtable;
+    }
+
     /// Relationships created earlier in this transaction that start or end at `node`.
     pub fn pending_edges_of(&self, node: InternalNodeId) -> Vec<crate::snapshot::EdgeKey> {
         self.memtable.edges_touching(node)
